@@ -20,6 +20,8 @@ PROPERTIES = {
         "assumptions": COMMON_ASSUMPTIONS,
         "tests": [
             {"test": "TestC14MutatedMemo", "quick": 6000, "thorough": 800000},
+            {"test": "TestC14Attributes", "quick": 4000, "thorough": 600000},
+            {"test": "TestC14RawPacket", "quick": 4000, "thorough": 600000},
         ],
     },
 }
